@@ -399,11 +399,11 @@ theorem sum_mod (l : List Nat) : (l.map (· % 256)).sum % 256 = l.sum % 256 := b
 theorem unpack (st : GoStruct) (rw : RW) (d : Spec.Msg.SDef)
     (h1 : Msg.init st = .ok rw) (h2 : Spec.Msg.ofGo st = some d) :
     ∃ fs sfs, initFields 0 st.fields = .ok fs ∧ Spec.Msg.fieldsOfGo 0 st.fields = some sfs ∧
-      d = { name := Spec.Msg.snakeUpper (st.name.drop 7).toString, fields := sfs } ∧
+      d = { name := Spec.Msg.snakeUpper (Msg.msgSuffix st.name), fields := sfs } ∧
       rw = { fields := sortFields fs,
              sizeNormal := fs.foldl (fun a f => if f.isExt then a else a + f.size) (0 : UInt8),
              sizeExtended := fs.foldl (fun a f => a + f.size) (0 : UInt8),
-             crcExtra := crcExtraOf (msgGoToDef (st.name.drop 7).toString) (sortFields fs), nfields := fs.length } ∧
+             crcExtra := crcExtraOf (msgGoToDef (Msg.msgSuffix st.name)) (sortFields fs), nfields := fs.length } ∧
       (sfs.dropWhile (!·.ext)).all (·.ext) = true ∧
       sfs.all (fun f => match f.arr with | some n => decide (1 ≤ n) && decide (n ≤ 255) | none => true) = true ∧
       Spec.Msg.sizeExt d ≤ 255 := by
@@ -671,7 +671,7 @@ theorem fold_link (s : UInt16) :
 /-- **C03 (CRC_EXTRA, for every struct).** -/
 theorem crc_universal (st : GoStruct) (rw : RW) (d : Spec.Msg.SDef)
     (h1 : Msg.init st = .ok rw) (h2 : Spec.Msg.ofGo st = some d) (hn : ∀ f ∈ st.fields, nameOk f)
-    (hm : firstUpper (st.name.drop 7).toString) :
+    (hm : firstUpper (Msg.msgSuffix st.name)) :
     rw.crcExtra.toNat = Spec.Msg.crcExtra d := by
   have horder := wire_order_agrees st rw d h1 h2
   obtain ⟨fs, sfs, hfs, hsfs, hd, hrw, _, _, _⟩ := unpack st rw d h1 h2
@@ -729,11 +729,11 @@ theorem crc_universal (st : GoStruct) (rw : RW) (d : Spec.Msg.SDef)
   have hflat : (sortFields fs).flatMap bytesD = (Spec.Msg.wireOrder d).flatMap bytesS := by
     rw [List.flatMap_def, List.flatMap_def, hmaps]
   -- assemble
-  have hcrc : rw.crcExtra = crcExtraOf (msgGoToDef (st.name.drop 7).toString) (sortFields fs) := by rw [hrw]
+  have hcrc : rw.crcExtra = crcExtraOf (msgGoToDef (Msg.msgSuffix st.name)) (sortFields fs) := by rw [hrw]
   rw [hcrc, crcExtraOf_eq, fold_link, x25_sum_eq_crc16, hflat, msg_name_conv _ hm]
   unfold Spec.Msg.crcExtra
   rw [crcExtraInput_eq]
-  have : d.name = Spec.Msg.snakeUpper (st.name.drop 7).toString := by rw [hd]
+  have : d.name = Spec.Msg.snakeUpper (Msg.msgSuffix st.name) := by rw [hd]
   rw [this]
   rfl
 
